@@ -12,20 +12,32 @@
 //                                       "ok w=<nwarn> refs=<ok|bad:array>"   and with x (exercise an accepted
 //                                       model: mj_makeData, mj_forward, 2 x mj_step, mj_deleteData):
 //                                       "ok w=.. refs=.. ex=<ok|nodata|error:msg>"
-//                                    a load or exercise taking more than 20 s ends the process with "HANG load|exercise"
+//   mjbbatch <n>                     the next n lines are mjbload commands, run in a forked worker; a command at which
+//                                    the worker dies (signal, sanitizer report, watchdog after 8 s of CPU time) is answered
+//                                    "crash <load|exercise|setup> <what>" and a fresh worker continues after it
 //   mjbroundtrip <m>                 -> "eq" | "ne <what>"      load(save(m)) compared with m over every size,
 //                                       mjOption/mjVisual/mjStatistic and every array of MJMODEL_POINTERS
 //   mjbfile <m> <hexpath>            -> save to a file via mj_saveModel(filename), reload through mju_openResource+mj_loadModelBuffer,
 //                                       compare as above -> "eq <filesize>" | "ne <what>"
 #include <signal.h>
 #include <stdint.h>
+#include <sys/mman.h>
+#include <sys/time.h>
+#include <sys/wait.h>
 #include "mjdrv_common.h"
 extern "C" const char* mj_validateReferences(const mjModel* m);
 
 static std::map<int, std::vector<unsigned char>> g_img;
 // watchdog: a load or an exercise that does not come back within the limit ends the process with a HANG line
 static const char* g_stage = "-";
-static void mjb_on_alarm(int) { char b[64]; int n = snprintf(b, sizeof b, "\nHANG %s\n", g_stage); if (n > 0) { ssize_t w = write(1, b, (size_t)n); (void)w; } _exit(71); }
+struct MjbShared { volatile int cur; volatile int stage; };
+static MjbShared* g_sh = nullptr;
+static void mjb_on_alarm(int) { _exit(g_stage[0] == 'e' ? 72 : 71); }
+// the limit is CPU time of the process (ITIMER_PROF), so a loaded machine cannot fake a hang
+static void mjb_limit(int seconds) {
+  struct itimerval it; memset(&it, 0, sizeof it); it.it_value.tv_sec = seconds;
+  signal(SIGPROF, mjb_on_alarm); setitimer(ITIMER_PROF, &it, nullptr);
+}
 
 struct ArrInfo { const char* name; size_t elsize; const char* nr; long long nc; size_t bytes; const void* ptr; };
 static std::vector<ArrInfo> mjb_arrays(const mjModel* m) {
@@ -86,6 +98,58 @@ static mjModel* mjb_loadModel(const char* filename) {
 }
 static std::string onel(const char* s) { std::string m = s ? s : ""; for (auto& c : m) if (c == '\n' || c == '\r') c = '|'; return m; }
 
+#define MJB_LIMIT 8
+static void mjb_do_load(const std::vector<std::string>& t) {
+    int ms = atoi(t.at(1).c_str());
+    auto it = g_img.find(ms); if (it == g_img.end()) mk_die("no image for slot");
+    const std::vector<unsigned char>& img = it->second;
+    size_t len = t.at(2) == "-" ? img.size() : (size_t)strtoull(t.at(2).c_str(), 0, 10);
+    bool ex = t.size() > 4 && t[4] == "x";
+    // patched copy of the full image (extended with junk if len > image)
+    std::vector<unsigned char> full(img);
+    if (len > full.size()) full.resize(len, 0xA5);
+    if (t.size() > 3 && t[3] != "-") {
+      for (auto& p : drv_csv(t[3])) {
+        size_t c = p.find(':'); if (c == std::string::npos) mk_die("bad patch " + p);
+        if (p[0] == 'h') {            // h<off>:<delta>  add delta to the 32-bit word at off
+          size_t off = (size_t)strtoull(p.substr(1, c - 1).c_str(), 0, 10); int w; if (off + 4 > full.size()) mk_die("patch outside image");
+          memcpy(&w, full.data() + off, 4); w += atoi(p.substr(c + 1).c_str()); memcpy(full.data() + off, &w, 4); continue;
+        }
+        size_t off = (size_t)strtoull(p.substr(0, c).c_str(), 0, 10); std::string by = unhex(p.substr(c + 1));
+        if (off + by.size() > full.size()) mk_die("patch outside image");
+        memcpy(full.data() + off, by.data(), by.size());
+      }
+    }
+    unsigned char* buf = (unsigned char*)malloc(len ? len : 1);   // exact-size heap block: asan sees over-reads
+    if (len) memcpy(buf, full.data(), len);
+    hx_nwarn = 0; hx_warn[0] = 0;
+    mjModel* volatile m = nullptr;
+    g_stage = "load"; if (g_sh) g_sh->stage = 1; mjb_limit(MJB_LIMIT);
+    if (HX_TRY) { m = mj_loadModelBuffer(buf, (int)len); HX_END; }
+    else { mjb_limit(0); free(buf); printf("error %s\n", onel(hx_err).c_str()); return; }
+    mjb_limit(0);
+    free(buf);
+    if (!m) { printf("null w=%d %s\n", hx_nwarn, tohex(hx_warn, strlen(hx_warn)).c_str()); return; }
+    int w = hx_nwarn;
+    std::string refs = "ok";
+    std::string exs;
+    if (ex) {
+      mjData* volatile d = nullptr;
+      g_stage = "exercise"; if (g_sh) g_sh->stage = 2; mjb_limit(MJB_LIMIT);
+      if (HX_TRY) {
+        d = mj_makeData(m);
+        if (!d) exs = "nodata";
+        else { mj_forward(m, d); mj_step(m, d); mj_step(m, d); mj_deleteData(d); d = nullptr; exs = "ok"; }
+        HX_END;
+      } else { exs = "error:" + tohex(hx_err, strlen(hx_err)); }
+      mjb_limit(0);
+    }
+    mj_deleteModel(m);
+    if (ex) printf("ok w=%d refs=%s ex=%s\n", w, refs.c_str(), exs.c_str());
+    else printf("ok w=%d refs=%s\n", w, refs.c_str());
+    return;
+  }
+
 static bool mjb_extra(const std::vector<std::string>& t, const std::vector<std::string>& lines, size_t& i) {
   const std::string& op = t[0];
   if (op == "mjbsave") {
@@ -118,54 +182,47 @@ static bool mjb_extra(const std::vector<std::string>& t, const std::vector<std::
     }
     o += "]}"; printf("%s\n", o.c_str()); return true;
   }
-  if (op == "mjbload") {
-    int ms = atoi(t.at(1).c_str());
-    auto it = g_img.find(ms); if (it == g_img.end()) mk_die("no image for slot");
-    const std::vector<unsigned char>& img = it->second;
-    size_t len = t.at(2) == "-" ? img.size() : (size_t)strtoull(t.at(2).c_str(), 0, 10);
-    bool ex = t.size() > 4 && t[4] == "x";
-    // patched copy of the full image (extended with junk if len > image)
-    std::vector<unsigned char> full(img);
-    if (len > full.size()) full.resize(len, 0xA5);
-    if (t.size() > 3 && t[3] != "-") {
-      for (auto& p : drv_csv(t[3])) {
-        size_t c = p.find(':'); if (c == std::string::npos) mk_die("bad patch " + p);
-        if (p[0] == 'h') {            // h<off>:<delta>  add delta to the 32-bit word at off
-          size_t off = (size_t)strtoull(p.substr(1, c - 1).c_str(), 0, 10); int w; if (off + 4 > full.size()) mk_die("patch outside image");
-          memcpy(&w, full.data() + off, 4); w += atoi(p.substr(c + 1).c_str()); memcpy(full.data() + off, &w, 4); continue;
-        }
-        size_t off = (size_t)strtoull(p.substr(0, c).c_str(), 0, 10); std::string by = unhex(p.substr(c + 1));
-        if (off + by.size() > full.size()) mk_die("patch outside image");
-        memcpy(full.data() + off, by.data(), by.size());
+  if (op == "mjbload") { mjb_do_load(t); return true; }        // in process (debugging); batches use mjbbatch
+  if (op == "mjbbatch") {
+    // the next n lines are mjbload commands.  They run in a forked worker; when the worker dies (signal, sanitizer
+    // report, watchdog) the command it was at gets a "crash <stage> <what>" line and a new worker continues
+    // with the next one: a crash costs one fork, not the batch.
+    int n = atoi(t.at(1).c_str());
+    std::vector<std::vector<std::string>> cmds;
+    for (int k = 1; k <= n; k++) { if (i + k >= lines.size()) mk_die("mjbbatch: missing lines"); cmds.push_back(split(lines[i + k])); }
+    i += n;
+    if (!g_sh) g_sh = (MjbShared*)mmap(nullptr, sizeof(MjbShared), PROT_READ | PROT_WRITE, MAP_SHARED | MAP_ANONYMOUS, -1, 0);
+    if (g_sh == MAP_FAILED) mk_die("mmap");
+    int next = 0;
+    while (next < n) {
+      fflush(stdout);
+      int pfd[2]; if (pipe(pfd)) mk_die("pipe");
+      g_sh->cur = next; g_sh->stage = 0;
+      pid_t pid = fork();
+      if (pid < 0) mk_die("fork");
+      if (pid == 0) {
+        close(pfd[0]); dup2(pfd[1], 2); close(pfd[1]);
+        for (int k = next; k < n; k++) { g_sh->cur = k; g_sh->stage = 0; mjb_do_load(cmds[k]); fflush(stdout); }
+        _exit(0);
       }
+      close(pfd[1]);
+      std::string err; char buf[4096]; ssize_t r;
+      while ((r = read(pfd[0], buf, sizeof buf)) > 0) { err.append(buf, (size_t)r); if (err.size() > (1u << 18)) err.erase(0, err.size() - (1u << 17)); }
+      close(pfd[0]);
+      int st = 0; waitpid(pid, &st, 0);
+      if (WIFEXITED(st) && WEXITSTATUS(st) == 0) break;
+      std::string why;
+      if (WIFSIGNALED(st)) why = std::string("signal ") + strsignal(WTERMSIG(st));
+      else if (WEXITSTATUS(st) == 71 || WEXITSTATUS(st) == 72) why = "hang (watchdog)";
+      else {
+        why = "exit " + std::to_string(WEXITSTATUS(st));
+        size_t q = err.rfind("SUMMARY:"); if (q == std::string::npos) q = err.rfind("runtime error:");
+        if (q != std::string::npos) { size_t e = err.find('\n', q); why += " " + err.substr(q, (e == std::string::npos ? err.size() : e) - q); }
+      }
+      for (auto& ch : why) if (ch == '\n' || ch == '\r') ch = ' ';
+      printf("crash %s %s\n", g_sh->stage == 2 ? "exercise" : g_sh->stage == 1 ? "load" : "setup", why.c_str());
+      next = g_sh->cur + 1;
     }
-    unsigned char* buf = (unsigned char*)malloc(len ? len : 1);   // exact-size heap block: asan sees over-reads
-    if (len) memcpy(buf, full.data(), len);
-    hx_nwarn = 0; hx_warn[0] = 0;
-    mjModel* volatile m = nullptr;
-    g_stage = "load"; signal(SIGALRM, mjb_on_alarm); alarm(20);
-    if (HX_TRY) { m = mj_loadModelBuffer(buf, (int)len); HX_END; }
-    else { alarm(0); free(buf); printf("error %s\n", onel(hx_err).c_str()); return true; }
-    alarm(0);
-    free(buf);
-    if (!m) { printf("null w=%d %s\n", hx_nwarn, tohex(hx_warn, strlen(hx_warn)).c_str()); return true; }
-    int w = hx_nwarn;
-    std::string refs = "ok";
-    std::string exs;
-    if (ex) {
-      mjData* volatile d = nullptr;
-      g_stage = "exercise"; alarm(20);
-      if (HX_TRY) {
-        d = mj_makeData(m);
-        if (!d) exs = "nodata";
-        else { mj_forward(m, d); mj_step(m, d); mj_step(m, d); mj_deleteData(d); d = nullptr; exs = "ok"; }
-        HX_END;
-      } else { exs = "error:" + tohex(hx_err, strlen(hx_err)); }
-      alarm(0);
-    }
-    mj_deleteModel(m);
-    if (ex) printf("ok w=%d refs=%s ex=%s\n", w, refs.c_str(), exs.c_str());
-    else printf("ok w=%d refs=%s\n", w, refs.c_str());
     return true;
   }
   if (op == "mjbroundtrip") {
